@@ -39,6 +39,7 @@ theorem query_complete (t : Table) (g : Graph) (start : Nat) (c : List Nat) (y e
   have hout : (e, acc) ∈ roundOutput t g start c.length := by
     simp only [roundOutput, round, List.mem_flatMap, List.mem_map]
     exact ⟨_, ⟨(m, q), hq, rfl⟩, hem⟩
+  have h3 : indexDepth = 3 := rfl
   obtain ⟨ems, hqe, hmem⟩ := query_some_of_mem t g start hstart c.length (by omega) (e, acc) hout
   refine ⟨ems, hqe, (e, acc), hmem, rfl, ?_, hx⟩
   exact (access_indexCode t q y acc ha).1 (by rw [hqc]; exact hlen) |> fun h => by rw [h, hqc]
@@ -137,7 +138,9 @@ theorem table_exact_then_completion_partial (chunks : List Chunk) (hne : NoEmpty
   have hyb : b.1.isExact = true := by
     have := hall y hy; simpa [Chunk.isExact, hsy.1, hsy.2.1] using this
   intro ⟨h1, h2⟩
-  simp [staticBetter, hxa, hyb, h2] at hab
+  have : decide (b.1.remaining.length < a.1.remaining.length) = false := by
+    simpa [staticBetter, hxa, hyb] using hab
+  simp only [decide_eq_false_iff_not] at this
   omega
 
 /-! ### non-vacuity -/
@@ -149,7 +152,7 @@ example :
     let t : Table := build id 2 [⟨[0], [65], ⟨3, 0⟩⟩, ⟨[1], [66], ⟨1, 0⟩⟩, ⟨[0, 0], [67], ⟨2, 0⟩⟩]
     let g : Graph := { inputLen := 2, interpLen := 2, edgeStarts := 2,
                        indices := [(0, [(0, [⟨1, 0, Dy.zero⟩]), (1, [⟨2, 0, Dy.zero⟩])]), (1, [(0, [⟨2, 0, Dy.zero⟩])])] }
-    (scriptTranslation t g 0 2 false none).map (fun c => (c.endPos, c.text)) = [(2, [66]), (2, [67]), (1, [65])] ∧
+    (scriptTranslation t g 0 2 false none).map (fun c => (c.endPos, c.text)) = [(2, [67]), (2, [66]), (1, [65])] ∧
     (lookup t g 0 false Dy.zero).all (fun kv => kv.2.rest.all (fun c => !c.entries.isEmpty)) = true := by
   decide
 
